@@ -104,6 +104,7 @@ type l2Registry struct {
 	locKind    map[string]string          // cell | map | mutex | chan
 	prot       map[string]map[string]bool // location -> mutexes held at every access seen so far (nil: none seen)
 	writers    map[string]map[int]bool    // location -> threads that write it
+	syncMap    map[string]bool            // maps that model a sync.Map (operations are atomic, never racy)
 	pubAtSpawn map[string]bool            // objects captured by a goroutine and written afterwards: shared from the go statement on
 	noFuse     bool
 	changed    bool
@@ -113,7 +114,7 @@ type l2Registry struct {
 func newRegistry() *l2Registry {
 	return &l2Registry{mutable: map[string]bool{}, shapes: map[string][]*Shape{}, shapeIdx: map[string]map[string]int{},
 		mapKeys: map[string][]mapKeyRec{}, mapKeyIx: map[string]map[string]int{}, objType: map[string]types.Type{}, locKind: map[string]string{},
-		prot: map[string]map[string]bool{}, writers: map[string]map[int]bool{}, pubAtSpawn: map[string]bool{}}
+		prot: map[string]map[string]bool{}, writers: map[string]map[int]bool{}, syncMap: map[string]bool{}, pubAtSpawn: map[string]bool{}}
 }
 
 func (r *l2Registry) note(what string) {
@@ -272,6 +273,7 @@ type eventCtx struct {
 	chanByName      map[string]*ChanVal
 	children        int
 	pendingChildren []pendingChild
+	arrays          map[string]*ArrayVal
 	setupSnap       map[int]Value
 	setupKey        string
 	setupClasses    []classRec
@@ -483,15 +485,11 @@ func (e *Engine) flatten(v Value) (*Shape, []*Term) {
 	panic(engineErr("event mode: cannot flatten %T", v))
 }
 
-var arrRegistry = map[*eventCtx]map[string]*ArrayVal{}
-
 func (ev *eventCtx) arrByName() map[string]*ArrayVal {
-	m := arrRegistry[ev]
-	if m == nil {
-		m = map[string]*ArrayVal{}
-		arrRegistry[ev] = m
+	if ev.arrays == nil {
+		ev.arrays = map[string]*ArrayVal{}
 	}
-	return m
+	return ev.arrays
 }
 
 // cellByName returns the cell of a named shared location, creating a shadow object for
@@ -828,11 +826,27 @@ func (e *Engine) loadAggregate(fr *frame, c *Cell) Value {
 	return e.load(fr, c)
 }
 
+// posOf describes where an access happens: "file:line in function" (the function name makes
+// race findings stable when unrelated edits shift line numbers).
 func (e *Engine) posOf(fr *frame) string {
-	if fr == nil {
-		return "?"
+	for f := fr; f != nil; f = f.caller {
+		if f.pos.IsValid() && (f.fn.Synthetic == "" || strings.HasPrefix(f.fn.Synthetic, "instance")) {
+			fn := f.fn.String()
+			if i := strings.LastIndex(fn, "/"); i >= 0 {
+				fn = fn[i+1:]
+			}
+			fn = strings.TrimPrefix(fn, "cache.")
+			fn = strings.ReplaceAll(fn, "(*cache.", "(*")
+			fn = strings.ReplaceAll(fn, "(cache.", "(")
+			return e.posStr(f.pos) + " in " + fn
+		}
 	}
-	return e.posStr(fr.pos)
+	for f := fr; f != nil; f = f.caller {
+		if f.pos.IsValid() {
+			return e.posStr(f.pos)
+		}
+	}
+	return "?"
 }
 
 func (e *Engine) evStore(fr *frame, c *Cell, v Value) {
@@ -962,16 +976,30 @@ func (e *Engine) sharedMap(m *MapVal) (string, bool) {
 	if !ok {
 		return "", false
 	}
+	if m.Sync {
+		e.ev.reg.syncMap[n] = true
+	}
 	return n, e.ev.reg.mutable[n]
 }
 
 // evMapLookup returns (found, value) of a lookup on a shared mutable map.
 func (e *Engine) evMapLookup(fr *frame, mname string, k Value) (bool, Value) {
+	return e.evMapLookup2(fr, mname, k, false)
+}
+
+// evMapLookup2: mustFind is set by iteration, where the same atomic step has just seen the key present.
+func (e *Engine) evMapLookup2(fr *frame, mname string, k Value, mustFind bool) (bool, Value) {
 	ki, _ := e.resolveKey(mname, k)
 	slot := fmt.Sprintf("%s{%d}", mname, ki)
 	found := e.newPlaceholder(BoolSort)
-	op := microOp{Kind: "mlookup", Loc: mname, KeyIx: ki, Res: found, Pos: e.posOf(fr)}
-	isFound := e.branch(found)
+	op := microOp{Kind: "mlookup", Atomic: e.ev.reg.syncMap[mname], Loc: mname, KeyIx: ki, Res: found, Pos: e.posOf(fr)}
+	var isFound bool
+	if mustFind {
+		e.assume(found)
+		isFound = true
+	} else {
+		isFound = e.branch(found)
+	}
 	var v Value
 	if isFound {
 		shapes := e.ev.reg.shapes[slot]
@@ -1012,19 +1040,19 @@ func (e *Engine) evMapUpdate(fr *frame, mname string, k, v Value) {
 	slot := fmt.Sprintf("%s{%d}", mname, ki)
 	sh, leaves := e.flatten(v)
 	si := e.ev.reg.addShape(slot, sh)
-	e.emitOp(microOp{Kind: "mupdate", Loc: mname, KeyIx: ki, Shape: sh, Leaves: leaves, ShapeI: si, Pos: e.posOf(fr)})
+	e.emitOp(microOp{Kind: "mupdate", Atomic: e.ev.reg.syncMap[mname], Loc: mname, KeyIx: ki, Shape: sh, Leaves: leaves, ShapeI: si, Pos: e.posOf(fr)})
 	e.endBlock(false)
 }
 
 func (e *Engine) evMapDelete(fr *frame, mname string, k Value) {
 	ki, _ := e.resolveKey(mname, k)
-	e.emitOp(microOp{Kind: "mdelete", Loc: mname, KeyIx: ki, Pos: e.posOf(fr)})
+	e.emitOp(microOp{Kind: "mdelete", Atomic: e.ev.reg.syncMap[mname], Loc: mname, KeyIx: ki, Pos: e.posOf(fr)})
 	e.endBlock(false)
 }
 
 func (e *Engine) evMapLen(fr *frame, mname string) *Term {
 	ph := e.newPlaceholder(BV(64))
-	e.emitOp(microOp{Kind: "mlen", Loc: mname, Res: ph, Pos: e.posOf(fr)})
+	e.emitOp(microOp{Kind: "mlen", Atomic: e.ev.reg.syncMap[mname], Loc: mname, Res: ph, Pos: e.posOf(fr)})
 	e.endBlock(false)
 	return ph
 }
@@ -1034,7 +1062,7 @@ func (e *Engine) evMapLen(fr *frame, mname string) *Term {
 func (e *Engine) evMapNext(fr *frame, mname string, pos int) int {
 	keys := e.ev.reg.mapKeys[mname]
 	ph := e.newPlaceholder(BV(8))
-	e.emitOp(microOp{Kind: "mnext", Loc: mname, KeyIx: pos, Res: ph, Pos: e.posOf(fr)})
+	e.emitOp(microOp{Kind: "mnext", Atomic: e.ev.reg.syncMap[mname], Loc: mname, KeyIx: pos, Res: ph, Pos: e.posOf(fr)})
 	res := -1
 	for i := pos; i < len(keys); i++ {
 		if e.branch(e.tb.Eq(ph, e.tb.BVConst(uint64(i), 8))) {
@@ -1186,7 +1214,33 @@ func (e *Engine) evRunThreads(fr *frame) {
 	for _, c := range e.allChans {
 		ev.setupChans[c.ID] = c
 	}
+	// arrays created during setup get stable names (their first cell's number)
+	nameArr := func(v Value) {
+		if sv, ok := v.(SliceVal); ok && sv.Arr != nil && sv.Arr.Name == "" && len(sv.Arr.E) > 0 {
+			sv.Arr.Name = fmt.Sprintf("A%d", sv.Arr.E[0].ID)
+			ev.arrByName()[sv.Arr.Name] = sv.Arr
+		}
+	}
+	for _, c := range e.allCells {
+		nameArr(c.V)
+		if iv, ok := c.V.(IfaceVal); ok {
+			nameArr(iv.V)
+		}
+	}
+	for _, m := range e.allMaps {
+		for _, en := range m.Entries {
+			nameArr(en.V)
+		}
+	}
+	for _, m := range e.syncMaps {
+		for _, en := range m.Entries {
+			nameArr(en.V)
+		}
+	}
 	e.trackCells = false
+	if ev.options["nofuse"] {
+		ev.reg.noFuse = true
+	}
 	ev.setupKey = decString(e.decisions)
 	ev.setupPC = append([]*Term{}, e.pc...)
 	ev.setupClasses = append([]classRec{}, e.classes...)
